@@ -30,6 +30,9 @@ def _with_other_as_time_type(fn):
     """This is decorator to convert the other argument and the result into a :class:`TimeType`"""
     @functools.wraps(fn)
     def wrapper(self, other) -> 'TimeType':
+        if isinstance(other, numpy.ndarray):
+            # numpy's reflected operator applies the operation element by element (as ndarray <op> TimeType does)
+            return NotImplemented
         try:
             converted = _converter.get(type(other), TimeType._try_from_any)(other)
         except TypeError:
